@@ -91,9 +91,18 @@ impl Prop for C14 {
         let mut out = CaseOut::default();
         let mut rng = Rng::derive(ctx.seed, "C14", idx);
         for k in 0..30 {
+            let mut odd_after: Vec<String> = vec![];
             let (input, kind, wf) = if rng.bool() {
-                let w = common::well_formed(ctx, &mut rng, 30);
+                let w = if rng.chance(1, 4) {
+                    // comments on their own line between arbitrary tokens
+                    let deco = crate::gen::layout::DecoOpts { odd_comment: *rng.pick(&[5u32, 20, 60]), ..crate::gen::layout::DecoOpts::light() };
+                    out.count("gen.gram-odd-comments");
+                    common::gram_case(&mut rng, 25, &deco)
+                } else {
+                    common::well_formed(ctx, &mut rng, 30)
+                };
                 let is_gram = w.prog.is_some();
+                odd_after = w.layout.as_ref().map(|l| l.odd_comment_after.clone()).unwrap_or_default();
                 (w.text, if is_gram { "gram" } else { "seed" }, true)
             } else {
                 let (i, k) = common::any_input(ctx, &mut rng);
@@ -127,7 +136,13 @@ impl Prop for C14 {
                                 out.sample = Some(json!({"generator": kind, "input": short(&input, 240), "logical lines": nl, "child lines": ch, "parser passes": p.passes}));
                             }
                         }
-                        Err((class, detail)) => out.violate("C14", &class, format!("[{kind}] {detail}"), &input, None),
+                        Err((class, detail)) => {
+                            // known finding: an own-line comment directly after the head keyword of a
+                            // structured type or after `=` derails the type declaration parser
+                            let after_type_head = odd_after.iter().any(|t| matches!(t.as_str(), "class" | "record" | "interface" | "object" | "=" | "helper" | "packed"));
+                            let class = if after_type_head && (class.starts_with("eof-line") || class.starts_with("parent")) { "comment-after-type-head".to_string() } else { class };
+                            out.violate("C14", &class, format!("[{kind}] {detail}"), &input, None)
+                        }
                     }
                 }
                 Err(p) => {
